@@ -14,13 +14,14 @@ when its state differs from the recorded one or nothing is recorded (`hasChanged
 namespace Pytask
 open Engine
 
-/-- **C17_persist.** A persist-marked task that no skip mark (own, deselection, skipped ancestor)
-and no failed ancestor stops, all of whose neighbours exist and at least one of which changed: is
-reported PERSISTENCE, its body is **not** executed, no file is touched — for every configuration,
+/-- **C17_persist.** A persist-marked task that no skip mark (own, deselection, skipped ancestor),
+no failed ancestor and no `would_be_executed` mark (only a dry run attaches those, see
+`C17_real_nowbe` / `C17_dry_below_wbe`; repair of F20) stops, all of whose neighbours exist and at
+least one of which changed: is reported PERSISTENCE, its body is **not** executed, no file is touched — for every configuration,
 `force` included. Unless the build is a dry run, afterwards every neighbour is recorded with its
 current state (`UpToDate`); in a dry run nothing is recorded. -/
 theorem C17_persist (F : BodyFn) (P : Project) (g : G) (cfg : Cfg) (s : Sess) (t : TaskSpec)
-    (hp : t.persist = true) (hns : ¬ SkipCond s t) (hnf : t.id ∉ s.failMarks)
+    (hp : t.persist = true) (hns : ¬ SkipCond s t) (hnf : t.id ∉ s.failMarks) (hnw : t.id ∉ s.wbeMarks)
     (hex : ∀ v ∈ neighbours g t.id, (stateOf P s.w v).isSome = true)
     (hch : ∃ v ∈ neighbours g t.id, hasChanged s.w t.id v (stateOf P s.w v) = true) :
     (protocol F P g cfg s t).reports = s.reports ++ [(t.id, Outcome.persistence)] ∧
@@ -29,7 +30,7 @@ theorem C17_persist (F : BodyFn) (P : Project) (g : G) (cfg : Cfg) (s : Sess) (t
     (protocol F P g cfg s t).nFailed = s.nFailed ∧
     (cfg.dry = false → UpToDate P g (protocol F P g cfg s t).w t.id) ∧
     (cfg.dry = true → (protocol F P g cfg s t).w = s.w) := by
-  rw [protocol_persisted hns hnf ⟨hp, hex, hch⟩]
+  rw [protocol_persisted hns hnf ⟨⟨hp, hnw⟩, hex, hch⟩]
   refine ⟨rfl, rfl, recordStates_fs, rfl, rfl, rfl, fun hdry v hv => ?_, fun hdry => recordStates_dry hdry⟩
   simp only []
   rw [stateOf_fs recordStates_fs]
@@ -47,7 +48,9 @@ theorem C17_quiet (F : BodyFn) (P : Project) (g : G) (cfg : Cfg) (s : Sess) (t :
 /-- **C17_persist_build.** `C17_persist` inside a whole build, for every accepted schedule: if the
 conditions hold in the session `s1` in which the task's protocol starts (the state the earlier picks
 `pre` lead to), the build reports the task PERSISTENCE, its body is not in the execution log, and in a
-real (non-dry) build the database the build leaves records every neighbour with the state it had then. -/
+real (non-dry) build the database the build leaves records every neighbour with the state it had then.
+For a real build nothing more is assumed (it never carries `would_be_executed` marks); for a dry run
+the task must not have been marked by an ancestor that would be executed (`C17_dry_below_wbe`). -/
 theorem C17_persist_build (F : BodyFn) (P : Project) (cfg : Cfg) (w : World) (picks : List Nat) (r : Result)
     (g : G) (marks : List Nat)
     (hd : createDag P cfg = .ok (g, marks)) (hb : build F P cfg w picks = .ok r)
@@ -55,6 +58,7 @@ theorem C17_persist_build (F : BodyFn) (P : Project) (cfg : Cfg) (w : World) (pi
     (s1 : Sess) (spec : TaskSpec) (h1 : Steps F P g cfg { w := w, skipMarks := marks } pre s1)
     (hf : Project.find? P t = some spec)
     (hp : spec.persist = true) (hns : ¬ SkipCond s1 spec) (hnf : t ∉ s1.failMarks)
+    (hnw : cfg.dry = true → t ∉ s1.wbeMarks)
     (hex : ∀ v ∈ neighbours g t, (stateOf P s1.w v).isSome = true)
     (hch : ∃ v ∈ neighbours g t, hasChanged s1.w t v (stateOf P s1.w v) = true) :
     (t, Outcome.persistence) ∈ r.reports ∧ (∀ o, (t, o) ∈ r.reports → o = Outcome.persistence) ∧ t ∉ r.log ∧
@@ -63,7 +67,11 @@ theorem C17_persist_build (F : BodyFn) (P : Project) (cfg : Cfg) (w : World) (pi
   rw [hf] at hf'; cases hf'
   have := h1.det h1'; subst this
   subst hid
-  obtain ⟨c1, c2, c3, _, _, _, c7, _⟩ := C17_persist F P g cfg s1 spec hp hns hnf hex hch
+  have hnw' : spec.id ∉ s1.wbeMarks := by
+    cases hdry : cfg.dry
+    · rw [h1.real_nowbe hdry rfl]; simp
+    · exact hnw hdry
+  obtain ⟨c1, c2, c3, _, _, _, c7, _⟩ := C17_persist F P g cfg s1 spec hp hns hnf hnw' hex hch
   refine ⟨(hr _).2 (by rw [c1]; simp), fun o ho => ?_, fun h => hl1 (c2 ▸ hl.1 h), fun hdry v hv => ?_⟩
   · have := (hr o).1 ho
     rw [c1] at this
@@ -79,7 +87,8 @@ theorem C17_persist_build (F : BodyFn) (P : Project) (cfg : Cfg) (w : World) (pi
 except `force`) started on the world the first one left — no edits in between. If the task was
 persisted in the first build (conditions of `C17_persist` in the session `s1` where its protocol
 started, not a dry run), and in the second build its protocol starts in a session `s2` in which it is
-not stopped by a skip mark / failed ancestor / dry-run mark and its neighbours still have the states
+not stopped by a skip mark / failed ancestor (nor, if the second build is a dry run, by a
+`would_be_executed` mark) and its neighbours still have the states
 they had in `s1` (no upstream task rewrote them), then the second build reports it SKIP_UNCHANGED and
 does not execute it. -/
 theorem C17_quiet_build (F : BodyFn) (P : Project) (cfg1 cfg2 : Cfg) (w : World) (picks1 picks2 : List Nat)
@@ -97,11 +106,12 @@ theorem C17_quiet_build (F : BodyFn) (P : Project) (cfg1 cfg2 : Cfg) (w : World)
     (hex : ∀ v ∈ neighbours g t, (stateOf P s1.w v).isSome = true)
     (hch : ∃ v ∈ neighbours g t, hasChanged s1.w t v (stateOf P s1.w v) = true)
     -- build 2
-    (hforce : cfg2.force = false) (hns2 : ¬ SkipCond s2 spec) (hnf2 : t ∉ s2.failMarks) (hnw2 : t ∉ s2.wbeMarks)
+    (hforce : cfg2.force = false) (hns2 : ¬ SkipCond s2 spec) (hnf2 : t ∉ s2.failMarks)
+    (hnw2 : cfg2.dry = true → t ∉ s2.wbeMarks)
     (hsame : ∀ v ∈ neighbours g t, stateOf P s2.w v = stateOf P s1.w v) :
     (t, Outcome.skipUnchanged) ∈ r2.reports ∧ (∀ o, (t, o) ∈ r2.reports → o = Outcome.skipUnchanged) ∧ t ∉ r2.log := by
   obtain ⟨_, _, _, hrec⟩ := C17_persist_build F P cfg1 w picks1 r1 g marks1 hd1 hb1 pre1 post1 t hpk1 s1 spec h1 hf
-    hp hns hnf hex hch
+    hp hns hnf (fun h => by rw [hdry] at h; cases h) hex hch
   obtain ⟨s2', spec', s', h2', hf', hid, _, hpre2, _, _, _, _, hl1, hr1, hl, hr⟩ := build_at hd2 hb2 hpk2
   rw [hf] at hf'; cases hf'
   have := h2.det h2'; subst this
@@ -114,7 +124,11 @@ theorem C17_quiet_build (F : BodyFn) (P : Project) (cfg1 cfg2 : Cfg) (w : World)
     simp only [] at this
     rw [this]
     exact hrec hdry v hv
-  have hq := C17_quiet F P g cfg2 s2 spec hforce hns2 hnf2 hnw2 hup
+  have hnw2' : spec.id ∉ s2.wbeMarks := by
+    cases hd2' : cfg2.dry
+    · rw [h2.real_nowbe hd2' rfl]; simp
+    · exact hnw2 hd2'
+  have hq := C17_quiet F P g cfg2 s2 spec hforce hns2 hnf2 hnw2' hup
   rw [hq] at hl hr
   refine ⟨(hr _).2 (by simp), fun o ho => ?_, fun h => hl1 (hl.1 h)⟩
   have := (hr o).1 ho
@@ -122,6 +136,25 @@ theorem C17_quiet_build (F : BodyFn) (P : Project) (cfg1 cfg2 : Cfg) (w : World)
   rcases this with h | h
   · exact absurd h (hr1 o)
   · exact h
+
+/-- **C17_real_nowbe.** A real (non-dry) build never carries `would_be_executed` marks: in every
+session reached from the start of the build the mark list is empty. So the extra hypothesis of
+`C17_persist` is vacuous outside dry runs, and `C17_persist_build` / `C17_quiet_build` hold for real
+builds at full strength. -/
+theorem C17_real_nowbe (F : BodyFn) (P : Project) (g : G) (cfg : Cfg) (w : World) (marks : List Nat)
+    (pre : List Nat) (s1 : Sess) (hdry : cfg.dry = false)
+    (h1 : Steps F P g cfg { w := w, skipMarks := marks } pre s1) : s1.wbeMarks = [] :=
+  h1.real_nowbe hdry rfl
+
+/-- **C17_dry_below_wbe** (repair of F20). In a dry run, a task that an ancestor which would be
+executed has marked — persist-marked or not, changed or not — is reported WOULD_BE_EXECUTED, never
+PERSISTENCE, and passes the mark on to its own descendants: whether its nodes will still be changed
+once the ancestors really ran cannot be known. Nothing runs, nothing is recorded. -/
+theorem C17_dry_below_wbe (F : BodyFn) (P : Project) (g : G) (cfg : Cfg) (s : Sess) (t : TaskSpec)
+    (hns : ¬ SkipCond s t) (hnf : t.id ∉ s.failMarks) (hw : t.id ∈ s.wbeMarks) :
+    protocol F P g cfg s t =
+      { s with reports := s.reports ++ [(t.id, Outcome.wouldBeExecuted)], wbeMarks := s.wbeMarks ++ taskDesc g t.id } :=
+  protocol_wbe_marked hns hnf hw
 
 /-- **C17_missing.** With a missing neighbour — a missing product in particular — the persist mark
 has no effect at all: the whole protocol (setup checks, execution, teardown, report, recorded states,
@@ -209,6 +242,16 @@ example : ∃ r1 r2 r3, build c17F c17P {} c17W [0, 1] = .ok r1 ∧
     r2.reports = [(0, .skipUnchanged), (1, .persistence)] ∧ r2.w.db = r1.w.db ∧
     r3.reports = [(0, .skipUnchanged), (1, .persistence)] :=
   ⟨_, _, _, rfl, rfl, rfl, rfl, rfl, rfl⟩
+
+/-- `C17_dry_below_wbe` (the F20 shape): forced dry run with the persist task's product tampered — the
+producer 0 would be executed, so the persist task 1 below it is WOULD_BE_EXECUTED, not PERSISTENCE; the
+real forced build then re-runs 0 and persists 1. -/
+example : ∃ r1 r2 r3, build c17F c17P {} c17W [0, 1] = .ok r1 ∧
+    build c17F c17P { force := true, dry := true } ⟨Engine.insert r1.w.fs 21 777, r1.w.db⟩ [0, 1] = .ok r2 ∧
+    build c17F c17P { force := true } r2.w [0, 1] = .ok r3 ∧
+    r2.reports = [(0, .wouldBeExecuted), (1, .wouldBeExecuted)] ∧ r2.log = [] ∧
+    r3.reports = [(0, .success), (1, .persistence)] ∧ r3.log = [0] :=
+  ⟨_, _, _, rfl, rfl, rfl, rfl, rfl, rfl, rfl⟩
 
 /-- `C17_skip_wins` / `C17_failed_wins`: upstream skipped ⇒ SKIP; upstream failing ⇒ SKIP_PREVIOUS_FAILED. -/
 example : ∃ r, build c17F ⟨[{ id := 0, src := 90, deps := [10], prods := [20], after := [], skip := true },
